@@ -115,7 +115,8 @@ def run(repo, res):
                       '(a name is not visible inside its own right-hand side); anchors found: %s'
                       % (key, sorted(kinds)), sample='%s anchored at %s' % (key, sorted(kinds)))
         elif kind in ('for', 'except'):
-            ok = all(k0 == 'np' and p.endswith('body[*]') for k0, p in kinds)
+            # np(body[0]) or the first token of the body (what C01-R4 demands: a decorated definition starts at its `@`)
+            ok = all((k0 == 'np' and p.endswith('body[*]')) or (k0 == 'first_body' and p.endswith('body')) for k0, p in kinds)
             res.check('C03-R3', key + ' anchor', ok, r['line'][0], r['line'][1],
                       'the target %s must become visible at the start of the body; anchors found: %s'
                       % (key, sorted(kinds)), sample='%s anchored at %s' % (key, sorted(kinds)))
